@@ -99,7 +99,7 @@ pub fn gen_c15(rng: &mut Rng, _thorough: bool) -> History {
         }
     }
     em.close_all();
-    em.finish(0, 0, 50_000_000, "c15".to_string())
+    em.finish(0, 0, 2_000_000_000, "c15".to_string())
 }
 
 /// The block transfer as the statement defines it. Returns the expected destination, or for
@@ -314,7 +314,7 @@ pub fn gen_c19(rng: &mut Rng, thorough: bool) -> History {
         em.push(0, op);
     }
     let variant = if thorough && faults && npx <= 64 && rng.chance(1, 20) { V19_ENUMERATE_OFFSETS } else { 0 };
-    em.finish(0, variant, 50_000_000, format!("c19 faults={}", faults))
+    em.finish(0, variant, 2_000_000_000, format!("c19 faults={}", faults))
 }
 
 fn expected_rgba(px: &[u32]) -> (Vec<u8>, Vec<bool>) {
@@ -563,12 +563,23 @@ fn degenerate_f32(rng: &mut Rng) -> f32 {
 }
 
 fn c07_transform(rng: &mut Rng) -> Mat {
+    // Either exactly singular or well conditioned: the inverse of the CTM positions image and
+    // gradient sources, whose coordinates live in 16.16 fixed point inside sw-composite (C13's
+    // stated domain). |det| >= 0.25 and |translation| <= 100 keep them below 2^14.
+    let sgn = |rng: &mut Rng| if rng.chance(1, 2) { -1.0f32 } else { 1.0 };
     let t = match rng.below(8) {
         0 | 1 | 2 => raqote::Transform::identity(),
         3 => mk::mat(&mk::unmat(&gen_singular(rng))),
-        4 => raqote::Transform::translation(rng.f32_in(-500., 500.), rng.f32_in(-500., 500.)),
-        5 => raqote::Transform::scale(rng.f32_in(-4., 4.), rng.f32_in(-4., 4.)),
-        _ => raqote::Transform::new(rng.f32_in(-2.8, 2.8), rng.f32_in(-2.8, 2.8), rng.f32_in(-2.8, 2.8), rng.f32_in(-2.8, 2.8), rng.f32_in(-500., 500.), rng.f32_in(-500., 500.)),
+        4 => raqote::Transform::translation(rng.f32_in(-100., 100.), rng.f32_in(-100., 100.)),
+        5 => raqote::Transform::scale(sgn(rng) * rng.f32_in(0.25, 4.), sgn(rng) * rng.f32_in(0.25, 4.)),
+        _ => {
+            let t = raqote::Transform::new(rng.f32_in(-2.8, 2.8), rng.f32_in(-2.8, 2.8), rng.f32_in(-2.8, 2.8), rng.f32_in(-2.8, 2.8), rng.f32_in(-100., 100.), rng.f32_in(-100., 100.));
+            if t.determinant().abs() < 0.25 {
+                raqote::Transform::translation(rng.range(-100, 100) as f32, rng.range(-100, 100) as f32)
+            } else {
+                t
+            }
+        }
     };
     mk::unmat(&t)
 }
@@ -668,8 +679,12 @@ fn c07_style(rng: &mut Rng, path: &PathSpec, identity: bool) -> StrokeSpec {
         _ => rng.f32_in(0., 4.),
     };
     let len = path_length_bound(path);
-    // fewer than 10^5 dashes: the period has to be at least len / 10^5 (we keep a factor of 4)
-    let min_period = (len / 25_000.).max(0.05);
+    // The statement allows up to 10^5 dashes. Sampled here: up to a few hundred (len is a generous
+    // upper bound of the arc length), because every dash contributes tens of edges and the
+    // rasteriser's edge insertion is quadratic in the number of edges starting on one sample
+    // row - legitimate, bounded, but it would make single runs take seconds to minutes and
+    // could not be told from a hang by any fixed step budget.
+    let min_period = (len / 300.).max(0.05);
     let dash_array: Vec<f32> = match rng.below(14) {
         0 | 1 | 2 | 3 | 4 => vec![],
         5 => vec![0.],
@@ -824,7 +839,7 @@ pub fn gen_c07(rng: &mut Rng, _thorough: bool) -> History {
         em.push(si, op);
     }
     em.close_all();
-    em.finish(0, 0, 50_000_000, "c07".to_string())
+    em.finish(0, 0, 2_000_000_000, "c07".to_string())
 }
 
 pub fn run_c07(h: &History, st: &mut Stats) -> Outcome {
@@ -833,7 +848,6 @@ pub fn run_c07(h: &History, st: &mut Stats) -> Outcome {
     let budget = h.tick_budget;
     let surface_bytes: usize = h.surfaces.iter().map(|s| (s.w * s.h) as usize * 4).sum();
     for (i, step) in h.steps.iter().enumerate() {
-        let path_bytes = 64 * 1024;
         crate::alloc::reset_max();
         let r = exec(&mut p, step, budget, st);
         let biggest = crate::alloc::max_request();
@@ -847,7 +861,9 @@ pub fn run_c07(h: &History, st: &mut Stats) -> Outcome {
                 panic: Some(pi),
             });
         }
-        if biggest > 64 * (surface_bytes + path_bytes) + (1 << 20) {
+        // a dashed outline of up to 10^5 dashes legitimately needs tens of megabytes of path
+        // data; what is flagged is a request out of all proportion (the capacity-overflow class)
+        if biggest > 64 * surface_bytes + (256 << 20) {
             return viol("c07.absurd-allocation", i, format!("{} asked the allocator for {} bytes in one request (surfaces hold {} bytes)", step.op.name(), biggest, surface_bytes));
         }
     }
